@@ -247,7 +247,9 @@ def one(emit, cid, fam, rng, sample):
             sk = SK.QuantileRegressor(quantile=q, alpha=alpha / n, fit_intercept=False, solver="highs").fit(X, y)
             res["sklearn.highs"] = (np.ravel(sk.coef_), None, False)
         else:   # sqrtlasso
-            y = C.make_target(rng, X, "real", noise=1.0)
+            # (a third of the cases nearly noiseless: the optimal residual may then fall below 1 % of |y|, the regime
+            #  in which the datafit documents that it refuses to go on and the estimator says so in a warning)
+            y = C.make_target(rng, X, "real", noise=float(rng.choice([1.0, 1.0, 0.003])))
             icpt = False
             if n <= p:
                 emit(dict(id=cid, cell=fam, status="skipped", nontrivial=False, hist={"skipped": "n<=p: zero residual regime"}))
@@ -255,8 +257,12 @@ def one(emit, cid, fam, rng, sample):
             amax = float(np.max(np.abs(X.T @ y)) / norm(y))
             alpha = max(frac, 0.05) * amax
             prob = R.RefProblem(X, y, R.RefDatafit("sqrtquad"), R.RefPenalty("l1", alpha=alpha), False)
-            est = SqrtLasso(alpha=alpha, tol=tol, max_iter=500).fit(X, y)
-            res["skglm.SqrtLasso"] = (np.ravel(est.coef_), "budget", True)
+            with warnings.catch_warnings(record=True) as wl:
+                warnings.simplefilter("always")
+                est = SqrtLasso(alpha=alpha, tol=tol, max_iter=500).fit(X, y)
+            announced = any("Small residuals prevented" in str(w_.message) for w_ in wl)
+            # an announced stop claims nothing; a silent return is a claim like any other
+            res["skglm.SqrtLasso"] = (np.ravel(est.coef_), None if announced else "budget", not announced)
             w, _, st = PDCD_WS(tol=1e-9, max_iter=100, max_epochs=5000).solve(X, y, cc(SqrtQuadratic()), cc(P.L1(alpha)))
             res["skglm.PDCD_WS"] = (w, "budget" if st <= 1e-9 else None, True)
             from scipy.optimize import minimize
